@@ -5,6 +5,8 @@ package actor
 import (
 	"context"
 	"time"
+
+	"github.com/tochemey/goakt/v4/internal/timer"
 )
 
 // C15 hooks: a bare target PID (real mailbox, real state flags, no actor system, no dispatcher) so that the
@@ -93,3 +95,6 @@ func VerifC15LastEnqueued(pid *PID) *ReceiveContext {
 
 // VerifC15Chan captures the response channel currently installed in rc.
 func VerifC15Chan(rc *ReceiveContext) chan any { return rc.response }
+
+// VerifC15TimerPool empties the package-level Ask timer pool; dup = some timer was pooled twice.
+func VerifC15TimerPool() (n int, dup bool) { return timer.VerifDrain(timers) }
